@@ -177,8 +177,10 @@ class Session:
     """One real writer driven by a worker thread: connect(); write(s_0) … write(s_{n-1});
     [disconnect(wait=True)].  Every observable event goes into `self.ev` (list append = total order)."""
 
-    def __init__(self, kind: str, stmts: list, disc: bool, gated: bool = False):
-        self.kind, self.disc, self.gated = kind, disc, gated
+    READ_KEYS = ("T", "B", "X", "Y", "Z", "E", "F", "S")
+
+    def __init__(self, kind: str, stmts: list, disc: bool, gated: bool = False, timeout: float | None = None):
+        self.kind, self.disc, self.gated, self.timeout = kind, disc, gated, timeout
         self.gate = threading.Semaphore(0)  # gated caller: one permit per write() / disconnect() call
         self.stmts = [s if isinstance(s, bytes) else s.encode() for s in stmts]
         self.stmt_index = {}
@@ -246,6 +248,8 @@ class Session:
         except Exception as e:  # noqa
             self.ev.append(("connect-raised", type(e).__name__))
             return
+        if self.timeout:
+            self.writer.set_timeout(self.timeout)  # shorter than the device's latency: write() must still wait
         self.do_writes()
         if self.disc:
             self.do_disconnect()
@@ -259,9 +263,17 @@ class Session:
             self.ev.append(("call", k))
             try:
                 self.writer.write(s)
-                self.ev.append(("ret", k, "returned"))
+                res = "returned"
             except Exception as e:  # noqa
-                self.ev.append(("ret", k, type(e).__name__))
+                res = type(e).__name__
+            self.ev.append(("ret", k, res, self.readings()))
+
+    def readings(self):
+        """what get_parameter() answers right now, for the keys the scripts report"""
+        try:
+            return {key: self.writer.get_parameter(key) for key in self.READ_KEYS}
+        except Exception as e:  # noqa
+            return {"error": type(e).__name__}
 
     def do_disconnect(self):
         if self.gated:
